@@ -2,7 +2,7 @@ import Driver.Util
 import OptunaVerif.Model.Storage
 /-! Sub-driver `storage`: the storage contract model behind the line protocol (C01 and friends). -/
 open Lean
-namespace Driver.C01
+namespace Driver.Sub.Storage
 open OptunaVerif OptunaVerif.Storage Driver
 
 def parseDist (j : Json) : P Dist := do
@@ -126,4 +126,7 @@ def handle (s : Spec) (j : Json) : Spec × Json :=
         then base ++ [("state", stateJson s')] else base
       (s', Json.mkObj withState)
 
-end Driver.C01
+/-- entry point: `driver storage` -/
+def main : IO Unit := Driver.lineLoop handle Storage.init
+
+end Driver.Sub.Storage
